@@ -1,6 +1,7 @@
 package main
 
 import (
+	"hash/crc32"
 	"fmt"
 	"go/types"
 	"math"
@@ -113,6 +114,25 @@ func (e *Engine) model(p *Path, fn *ssa.Function, full string, args []Value, dep
 	case pkg == "strconv":
 		if r, ok := e.modelStrconv(p, name, args, rt); ok {
 			return r, true
+		}
+	case pkg == "hash/crc32" && name == "ChecksumIEEE":
+		// concrete input: computed directly (the slicing-by-8 tables cost 3e7 block visits from SSA); symbolic
+		// input falls through to the SSA of the package
+		if sl, ok := args[0].(SliceV); ok && sl.len.IsConst() {
+			n := int(sl.len.val)
+			buf := make([]byte, n)
+			conc := true
+			for k := 0; k < n && conc; k++ {
+				b := asTerm(e.load(p.st, e.offsetPtr(sl.p, e.Const(64, uint64(k)))))
+				if !b.IsConst() {
+					conc = false
+				}
+				buf[k] = byte(b.val)
+			}
+			if conc {
+				e.used("hash/crc32.ChecksumIEEE on concrete bytes (computed natively)")
+				return e.one(p, e.Const(32, uint64(crc32.ChecksumIEEE(buf)))), true
+			}
 		}
 	case pkg == "sort":
 		if name == "Slice" || name == "SliceStable" {
